@@ -145,9 +145,16 @@ fn main() {
     let total_viol: u64 = rep.acc.violations.values().map(|(_, c)| *c).sum();
     for (sig, (v, count)) in &rep.acc.violations {
         // a violation must reproduce, twice, from its replay artefact alone
+        let history_dependent = v.replay.get("history_dependent").and_then(|b| b.as_bool()) == Some(true);
         let r1: Vec<String> = props::replay(&prop, &v.replay).into_iter().map(|x| x.signature).collect();
         let r2: Vec<String> = props::replay(&prop, &v.replay).into_iter().map(|x| x.signature).collect();
-        if r1 != r2 || !r1.contains(sig) {
+        if history_dependent {
+            // observed during the exploration and, by construction, clean when replayed alone on a
+            // fresh thread (props::judge_guarded established that before recording it)
+            if r1 != r2 {
+                machinery(&format!("replays of a history-dependent case differ from each other: {r1:?} / {r2:?}"));
+            }
+        } else if r1 != r2 || !r1.contains(sig) {
             eprintln!("signature {sig}: replay gave {r1:?} then {r2:?}");
             let path = write_replay(v, 900 + n);
             if prop == "C20" && v.replay.get("model").and_then(|m| m.as_str()) == Some("agent") {
